@@ -215,8 +215,12 @@ METER = WorkMeter()
 
 
 def default_budget(n_vars: int, n_nodes: int = 1) -> int:
-    """C13's generous work bound: 2*10^4 * (n+1)^2 * (2^n + nodes + 1) loop back-edges."""
-    return 20_000 * (n_vars + 1) ** 2 * ((1 << min(n_vars, 24)) + n_nodes + 1)
+    """C13's generous work bound in executed loop back-edges inside biobalm code:
+    B(n, nodes) = 5*10^4 * (n+1)^3 + 500 * (n+1)^2 * (2^n + nodes + 1).
+    Calibrated on the measured maxima of terminating calls per network size (n=1: 5e3,
+    n=4: 1.6e5, n=7: 5.7e5 back-edges): >= 40x above them for every n."""
+    n1 = n_vars + 1
+    return 50_000 * n1 ** 3 + 500 * n1 ** 2 * ((1 << min(n_vars, 24)) + n_nodes + 1)
 
 
 # =============================================================================== write tracing
